@@ -76,6 +76,15 @@ def extract_d_mat(M: Model, c: ClassInfo) -> KernelForm:
     _class_level_kernel(M, c, cd)
     kernels = [n for n in cd.nested]
     rets = [n for n in walk_no_nested(cd.node) if isinstance(n, ast.Return) and n.value is not None]
+    # special cases handed out before the general kernel: `if <captured field> == <number>: return <captured component kernel>` at the top level
+    # of compile_d_mat.  Each is one more compiled form, valid under its condition; the caller compares it with d() under the same condition.
+    special = []
+    for s in cd.node.body:
+        if isinstance(s, ast.If) and not s.orelse and len(s.body) == 1 and isinstance(s.body[0], ast.Return) and isinstance(s.body[0].value, ast.Name) and \
+                isinstance(s.test, ast.Compare) and len(s.test.ops) == 1 and isinstance(s.test.ops[0], ast.Eq) and isinstance(s.test.left, ast.Name) and \
+                isinstance(s.test.comparators[0], ast.Constant) and type(s.test.comparators[0].value) in (int, float):
+            special.append((s, s.test.left.id, s.test.comparators[0].value, s.body[0].value.id))
+            rets = [r for r in rets if r is not s.body[0]]
     if len(rets) != 1 or not isinstance(rets[0].value, ast.Name):
         raise Unsupported("compile_d_mat does not return a single local kernel")
     k = next((x for x in kernels if x.name == rets[0].value.id), None)
@@ -138,7 +147,15 @@ def extract_d_mat(M: Model, c: ClassInfo) -> KernelForm:
         return None
     ex = Extractor(env, subscript=sub, call=call)
     form = A.single_return_expr(k.node, ex)
-    return KernelForm(c, k, form, ex, "d_mat")
+    kf = KernelForm(c, k, form, ex, "d_mat")
+    kf.special = []
+    for s_, fld_local, const, comp_local in special:
+        fld = env.get(fld_local)
+        if not isinstance(fld, Rat) or comps.get(comp_local) in (None, "M"):
+            raise Unsupported(f"special case `{norm(s_.test)}` of compile_d_mat not understood")
+        sym = next(iter(fld.atoms()), None)
+        kf.special.append((s_, norm(s_.test), fld, const, A.mk_app(comps[comp_local], [Rat.var("u1"), Rat.var("u2")], symmetric=True)))
+    return kf
 
 
 def delta_reassigned_after_construction(M: Model) -> bool:
